@@ -344,7 +344,7 @@ func CopyObject(db Backend, srcBucket, srcKey, dstBucket, dstKey string, meta ma
 	}
 	defer c.Contents.Close()
 
-	_, err = db.PutObject(dstBucket, dstKey, meta, c.Contents, c.Size)
+	put, err := db.PutObject(dstBucket, dstKey, meta, c.Contents, c.Size)
 	if err != nil {
 		return
 	}
@@ -352,6 +352,7 @@ func CopyObject(db Backend, srcBucket, srcKey, dstBucket, dstKey string, meta ma
 	return CopyObjectResult{
 		ETag:         `"` + hex.EncodeToString(c.Hash) + `"`,
 		LastModified: NewContentTime(time.Now()),
+		VersionID:    put.VersionID,
 	}, nil
 }
 
